@@ -25,6 +25,9 @@ type HarnessDef struct {
 	// outcomes that are legitimate for this harness and not violations
 	ThoroughOnly bool
 	Note         string
+	// Sched: the harness explores goroutine schedules; a counterexample may need a particular
+	// interleaving, so its native confirmation is attempted repeatedly (different GOMAXPROCS)
+	Sched bool
 }
 
 type PropDef struct {
@@ -350,6 +353,8 @@ func RunCheck(cfg CheckConfig) int {
 					problems = append(problems, fmt.Sprintf("%s: counterexample for %s not confirmed by the race detector, vector=%v", hd.Name, v.Assert, v.Vector))
 					continue
 				}
+			} else if !violationReproduces(v, nr) && hd.Sched && m_retryNative(nat, pkg, v, &nr) {
+				// confirmed on a later attempt (schedule-dependent counterexample)
 			} else if !violationReproduces(v, nr) {
 				problems = append(problems, fmt.Sprintf("%s: counterexample for %s (%s) did not reproduce natively (native: %s %s) vector=%v", hd.Name, v.Assert, v.Kind, nr.Outcome, nr.Detail, v.Vector))
 				continue
@@ -473,6 +478,26 @@ func RunCheck(cfg CheckConfig) int {
 		return 2
 	}
 	return 0
+}
+
+// m_retryNative re-runs a schedule-dependent counterexample natively (the Go scheduler picks the
+// interleaving) until it reproduces or the attempts are used up.
+func m_retryNative(nat *Native, pkg string, v Violation, nr **NativeResult) bool {
+	procs := []string{"1", "2", "4", "16"}
+	for i := 0; i < 24; i++ {
+		nat.ExtraEnv = []string{"GOMAXPROCS=" + procs[i%len(procs)]}
+		rr, err := nat.Run(pkg, []NativeItem{{ID: "r", Harness: v.Harness, Vector: v.Vector}}, 8000)
+		nat.ExtraEnv = nil
+		if err != nil {
+			return false
+		}
+		if r := rr["r"]; r != nil && violationReproduces(v, r) {
+			r.Detail += fmt.Sprintf(" (native attempt %d)", i+2)
+			*nr = r
+			return true
+		}
+	}
+	return false
 }
 
 func round3(f float64) float64 { return float64(int64(f*1000+0.5)) / 1000 }
